@@ -309,6 +309,8 @@ class Calls:
                     st.assume(v.ref != NIL)
                 elif isinstance(v, PtrV):
                     st.assume(z3.Not(to_bool(v.nil)))
+        if decl.get("constructor") and len(vals) == 1 and isinstance(vals[0], PtrV):
+            st.assume(z3.Not(to_bool(vals[0].nil)))      # proved on the constructor: valid[result-nonnil]
         # results bound
         rn = dict(names)
         self.bind_results(rn, fn, vals, rtypes, decl)
